@@ -86,7 +86,7 @@ Qed.
 Lemma generate_Lam_closedR : forall tl svs cur id ps r b,
   generate tl svs cur (Lam id ps r [] [] [] b) =
   [IPushProc (lam_flags id r b) (length ps) (closedR (fun m => if Nat.eqb m id then [] else svs m) id ps r b)].
-Proof. reflexivity. Qed.
+Proof. intros. rewrite <- (Proofs.lam_flags_sv_nil id r b). reflexivity. Qed.
 
 Lemma prim1_okR : forall p h v w r stk0,
   prim_arity p = 1 -> vrelR h v w -> prim_sem p [w] = inl (Some r) ->
